@@ -101,6 +101,32 @@ class Repo(object):
             raise AnalysisError('anchor function %s not found' % qual)
         return node
 
+    def signatures(self):
+        '''callable name -> parameter names, for names that denote ONE signature in the analysed tree (functions, methods
+        without self, classes through __init__); used to compare calls modulo positional / keyword spelling'''
+        seen = {}
+        for m in self.modules.values():
+            for n in ast.walk(m.tree):
+                if isinstance(n, ast.ClassDef):
+                    for c in n.body:
+                        if isinstance(c, ast.FunctionDef) and c.name == '__init__':
+                            a = c.args
+                            if not (a.vararg or a.kwarg or a.kwonlyargs):
+                                seen.setdefault(n.name, set()).add(tuple(x.arg for x in a.posonlyargs + a.args)[1:])
+                            else:
+                                seen.setdefault(n.name, set()).add(None)
+                elif isinstance(n, ast.FunctionDef) and not (n.name.startswith('__') and n.name.endswith('__')):
+                    a = n.args
+                    ps = tuple(x.arg for x in a.posonlyargs + a.args)
+                    parent = getattr(n, '_parent', None)
+                    if isinstance(parent, ast.ClassDef) and ps and ps[0] in ('self', 'cls'):
+                        ps = ps[1:]
+                    if a.vararg or a.kwarg or a.kwonlyargs:
+                        seen.setdefault(n.name, set()).add(None)
+                    else:
+                        seen.setdefault(n.name, set()).add(ps)
+        return {k: list(next(iter(v))) for k, v in seen.items() if len(v) == 1 and None not in v}
+
     def nfunc(self, qual):
         '''the function in NORMAL FORM (sa/normal.py): helpers outside the reference inventory inlined, temporaries folded,
         guards canonical.  For rules that read the shape of a function: the reference and every equivalent rewrite of it
